@@ -398,22 +398,77 @@ def P.nestedStmtsWith (p : P) (ss : Stmts) (closing : Pos) (loop : P → P) : P 
   let p := p.stmtListWith ss loop
   p.decLevel
 
+/-! The recursive printer functions are split into their non-recursive segments (`stmtPre`,
+    `stmtEnd`, `subshellOpen`, `binaryOp`, `binaryEnd`, `stmtSep`), so that each segment has its
+    own lemmas; `P.stmt`, `P.command`, `P.stmtListLoop` only chain them. -/
+
+/-- `p.stmt(s)` up to the `p.command` call -/
+def P.stmtPre (p : P) (neg : Bool) : P :=
+  let p := { p with wroteSemi := false }
+  if neg then p.spacedString [33] else p
+
+/-- `p.stmt(s)` after the `p.command` call (no redirections in F0) -/
+def P.stmtEnd (p : P) (semi : Pos) (bg : Bool) : P :=
+  let p := p.incLevel
+  let sep := semi.valid && semi.line > p.line && !p.o.singleLine
+  let p :=
+    if sep || bg then
+      let p := if sep then p.bslashNewl else if !p.o.minify then p.space else p
+      let p := if bg then p.tok [38] else p.tok [59]
+      { p with wroteSemi := true, wantSpace := .required }
+    else p
+  p.decLevel
+
+/-- `case *Subshell:` up to the `nestedStmts` call -/
+def P.subshellOpen (p : P) (lp : Pos) (ss : Stmts) : P :=
+  let p := p.tok [40]
+  let p :=
+    match ss with
+    | .nil => { p with wantSpace := .required }
+    | .cons s rest =>
+      if s.startsWithLparen then
+        let p := { p with wantSpace := .required }
+        if (lp.line != s.pos.line || rest.length > 0) && !p.o.singleLine then
+          let p := { p with wantSpace := .notRequired }
+          if p.o.minify then { p with mustNewline := true } else p
+        else p
+      else { p with wantSpace := .notRequired }
+  p.spacePad
+
+/-- `case *BinaryCmd:` between `p.stmt(cmd.X)` and `p.stmt(cmd.Y)`; the Boolean is the local
+    `indent` (false on the same-line path, which leaves `nestedBinary` untouched) -/
+def P.binaryOp (p : P) (opPos : Pos) (op : BinOp) (yLine : Nat) (yIsBinary : Bool) : P × Bool × Bool :=
+  if p.o.minify || p.o.singleLine || yLine ≤ p.line then
+    (((p.spacedToken op.str).advanceLine yLine), false, false)
+  else
+    let indent := !p.nestedBinary
+    let p := if indent then p.incLevel else p
+    let p :=
+      if p.o.binNextLine then p.bslashNewl.spacedToken op.str
+      else (((p.spacedToken op.str).advanceLine opPos.line).newline 0).indent
+    let p := p.advanceLine yLine
+    ({ p with nestedBinary := yIsBinary }, indent, true)
+
+/-- `case *BinaryCmd:` after `p.stmt(cmd.Y)`; `multi` says whether the multi-line path was taken -/
+def P.binaryEnd (p : P) (indent multi : Bool) : P :=
+  if multi then
+    let p := if indent then p.decLevel else p
+    { p with nestedBinary := false }
+  else p
+
+/-- the body of the `stmtList` loop up to the `p.stmt(s)` call -/
+def P.stmtSep (p : P) (first : Bool) (posLine : Nat) : P :=
+  let p :=
+    if !first && p.o.singleLine && p.wantNewline && !p.wroteSemi then
+      { (p.tok [59]) with wantSpace := .required }
+    else p
+  let p := if p.mustNewline || !p.o.minify || p.wantSpace = .required then p.newlines posLine else p
+  p.advanceLine posLine
+
 mutual
 /-- `p.stmt(s)` -/
 def P.stmt (p : P) : Stmt → P
-  | .mk _ semi neg bg cmd =>
-    let p := { p with wroteSemi := false }
-    let p := if neg then p.spacedString [33] else p
-    let p := p.command cmd
-    let p := p.incLevel
-    let sep := semi.valid && semi.line > p.line && !p.o.singleLine
-    let p :=
-      if sep || bg then
-        let p := if sep then p.bslashNewl else if !p.o.minify then p.space else p
-        let p := if bg then p.tok [38] else p.tok [59]
-        { p with wroteSemi := true, wantSpace := .required }
-      else p
-    p.decLevel
+  | .mk _ semi neg bg cmd => (((p.stmtPre neg).command cmd).stmtEnd semi bg)
 
 /-- `p.command(cmd, nil)` -/
 def P.command (p : P) : Cmd → P
@@ -439,61 +494,23 @@ def P.command (p : P) : Cmd → P
     p.semiRsrv [125] rb.line
   | .subshell lp rp ss =>
     let p := (p.advanceLine lp.line).spacePad
-    let p := p.tok [40]
-    let p :=
-      match ss with
-      | .nil => { p with wantSpace := .required }
-      | .cons s rest =>
-        if s.startsWithLparen then
-          let p := { p with wantSpace := .required }
-          if (lp.line != s.pos.line || rest.length > 0) && !p.o.singleLine then
-            let p := { p with wantSpace := .notRequired }
-            if p.o.minify then { p with mustNewline := true } else p
-          else p
-        else { p with wantSpace := .notRequired }
-    let p := p.spacePad
+    let p := p.subshellOpen lp ss
     let p := p.nestedStmtsWith ss rp (fun q => q.stmtListLoop true ss)
     let p := p.closingParenSpace ss lp.line rp.line
     p.rightParen rp.line
   | .binary opPos op x y =>
     let p := (p.advanceLine x.pos.line).spacePad
     let p := p.stmt x
-    if p.o.minify || p.o.singleLine || y.pos.line ≤ p.line then
-      let p := p.spacedToken op.str
-      let p := p.advanceLine y.pos.line
-      p.stmt y
-    else
-      let indent := !p.nestedBinary
-      let p := if indent then p.incLevel else p
-      let p :=
-        if p.o.binNextLine then
-          let p := p.bslashNewl
-          p.spacedToken op.str
-        else
-          let p := p.spacedToken op.str
-          let p := p.advanceLine opPos.line
-          (p.newline 0).indent
-      let p := p.advanceLine y.pos.line
-      let p := { p with nestedBinary := match y with | .mk _ _ _ _ c => c.isBinary }
-      let p := p.stmt y
-      let p := if indent then p.decLevel else p
-      { p with nestedBinary := false }
+    let r := p.binaryOp opPos op y.pos.line (match y with | .mk _ _ _ _ c => c.isBinary)
+    (r.1.stmt y).binaryEnd r.2.1 r.2.2
 
 /-- the loop of `p.stmtList(stmts, nil)`; `first` is `i == 0` -/
 def P.stmtListLoop (p : P) (first : Bool) : Stmts → P
   | .nil => p
   | .cons s rest =>
-    let p :=
-      if !first && p.o.singleLine && p.wantNewline && !p.wroteSemi then
-        { (p.tok [59]) with wantSpace := .required }
-      else p
-    let pos := s.pos
-    let p := if p.mustNewline || !p.o.minify || p.wantSpace = .required then p.newlines pos.line else p
-    let p := p.advanceLine pos.line
-    let p := p.stmt s
+    let p := (p.stmtSep first s.pos.line).stmt s
     let p := { p with wantNewline := true }
     p.stmtListLoop false rest
-
 end
 
 /-- `p.stmtList(stmts, nil)` -/
